@@ -344,7 +344,7 @@ Proof.
   { clear m' r. intros m' r E. destruct (m_total m); [inversion E; lia|].
     destruct (m_cache m) eqn:Ec; [inversion E; lia|]. rewrite <- Ec in E. apply init_loop_ilen in E. exact E. }
   destruct (if first && _ && _ then find_space ns_StartTLS (c_feats c) else None) as [f|]; [|apply Tail].
-  destruct (f_neg f); [|apply Tail]. apply init_loop_ilen.
+  destruct (f_neg f && eligible f (m_bits m)); [|apply Tail]. apply init_loop_ilen.
 Qed.
 
 Lemma negotiate_features_ilen c m first m' r :
